@@ -34,6 +34,9 @@ fn catalogue() -> Vec<(&'static str, Vec<Vec<f64>>, Vec<f64>, Vec<f64>)> {
     v.push(("n12p2c4", (0..12).map(|i| vec![(i % 4) as f64 + 0.5 * (i / 8) as f64, ((i * 7) % 6) as f64]).collect(), vec![1.0, 1.0, 1.0, 1.0, 1.0, 1.0, 5.0, 5.0, 5.0, 9.0, 9.0, 20.0], (0..12).map(|i| if i % 5 == 0 { 50.0 } else { i as f64 }).collect()));
     // n=8, p=6, binary features with exact gain ties between columns (feature sub-sampling with m << p)
     v.push(("n8p6", (0..8).map(|i: usize| (0..6).map(|c: usize| (((i >> (c % 3)) & 1) ^ (c / 3)) as f64).collect()).collect(), vec![0.0, 1.0, 1.0, 0.0, 1.0, 0.0, 0.0, 1.0], (0..8).map(|i| ((i * 3) % 8) as f64).collect()));
+    // n=8, p=2, features symmetric about zero: thresholds (midpoints of -v and +v) and, with the tied
+    // second column, split scores that are EXACTLY 0.0
+    v.push(("n8p2centred", (0..8).map(|i: usize| vec![[-2.0, -1.0, -0.5, -0.5, 0.5, 0.5, 1.0, 2.0][i], [1.0, -1.0, 1.0, -1.0, 1.0, -1.0, 1.0, -1.0][i]]).collect(), vec![-3.0, -3.0, -3.0, 7.0, 7.0, -3.0, 7.0, 7.0], vec![-1.0, -1.0, 0.0, 0.5, 0.5, 0.0, 1.0, 1.0]));
     // n=6, p=1 heavy ties
     v.push(("n6p1ties", vec![vec![1.0], vec![1.0], vec![1.0], vec![2.0], vec![2.0], vec![3.0]], vec![-1.0, 1.0, -1.0, 1.0, 1.0, -1.0], vec![3.0, 1.0, 2.0, 5.0, 4.0, 0.0]));
     v
@@ -332,6 +335,26 @@ fn seeded_case(job: &Job) {
     } else if !same_bits(&a.pred, &b.pred) || a.oob.as_ref().map(|v| v.iter().map(|x| mc::hash::canon_bits(*x)).collect::<Vec<_>>()) != b.oob.as_ref().map(|v| v.iter().map(|x| mc::hash::canon_bits(*x)).collect::<Vec<_>>()) {
         mc::violation_nondet(format!("{}:predictions-not-reproducible", site), format!("{}: two identical fits predict differently", ctx));
     }
+    // "two forests fitted with the same data, parameters and seed are identical" — also through the
+    // library's own equality, and a forest equals itself
+    if a.json == b.json {
+        let eqs: Option<(bool, bool)> = if regression {
+            match (serde_json::from_value::<RandomForestRegressor<f64>>(a.json.clone()), serde_json::from_value::<RandomForestRegressor<f64>>(b.json.clone())) {
+                (Ok(ma), Ok(mb)) => mc::guard(|| (ma == mb, ma == ma)).ok(),
+                _ => None,
+            }
+        } else {
+            match (serde_json::from_value::<RandomForestClassifier<f64>>(a.json.clone()), serde_json::from_value::<RandomForestClassifier<f64>>(b.json.clone())) {
+                (Ok(ma), Ok(mb)) => mc::guard(|| (ma == mb, ma == ma)).ok(),
+                _ => None,
+            }
+        };
+        match eqs {
+            Some((true, true)) => mc::count("seeded_fits_compared_with_eq"),
+            Some((ab, aa)) => mc::violation(format!("{}:identical-fits-compare-unequal", site), format!("{}: two fits with equal data, parameters and seed serialise identically but `==` says first==second: {}, first==first: {}", ctx, ab, aa)),
+            None => mc::violation(format!("{}:model-not-restorable", site), format!("{}: the serialised forest cannot be read back / compared", ctx)),
+        }
+    }
     if regression {
         check_regressor(site, &ctx, rows, &y, n_trees, keep, &a, &q);
     } else {
@@ -583,11 +606,11 @@ impl Harness for C06 {
             jobs,
             budget_s: if t { 2400 } else { 40 },
             case_deadline_ms: 20_000,
-            floors: vec![("builder_chains", 5), ("entry_cases", 1000), ("seeded_fits", 10_000), ("bootstrap_schedules", 10_000), ("feature_shuffles_explored", 1000), ("oob_rows_checked", 10_000), ("oob_rows_partial", 1000), ("rows_with_disagreeing_trees", 1000), ("class_size_fits", 10_000), ("class_size_fits_singleton_class", 500), ("row_count_fits_regressor", 400), ("row_count_fits_regressor_above_64_rows", 200)],
+            floors: vec![("builder_chains", 5), ("entry_cases", 1000), ("seeded_fits", 10_000), ("seeded_fits_compared_with_eq", 10_000), ("bootstrap_schedules", 10_000), ("feature_shuffles_explored", 1000), ("oob_rows_checked", 10_000), ("oob_rows_partial", 1000), ("rows_with_disagreeing_trees", 1000), ("class_size_fits", 10_000), ("class_size_fits_singleton_class", 500), ("row_count_fits_regressor", 400), ("row_count_fits_regressor_above_64_rows", 200)],
             bounds: json!({
                 "builders": mc_sc::builders::BOUNDS,
                 "entry_paths": mc_sc::entry::BOUNDS,
-                "seeded": format!("7 lattice data sets x {{classifier, regressor}} x seeds {}..{} x n_trees {{1,2,3,5,10,30}} x m in {{None,1..p}} x 6 (max_depth, min_samples_leaf, min_samples_split) settings x keep_samples x 3 criteria", seed0, seed0 as usize + nseeds),
+                "seeded": format!("8 lattice data sets (one centred: thresholds and gains exactly 0) x {{classifier, regressor}} x seeds {}..{} x n_trees {{1,2,3,5,10,30}} x m in {{None,1..p}} x 6 (max_depth, min_samples_leaf, min_samples_split) settings x keep_samples x 3 criteria", seed0, seed0 as usize + nseeds),
                 "row_counts_regressor": "regressor, p=1: every n in 4..=120 x 2 target patterns x n_trees in {1,2}, all n training rows predicted in one call (mean of member trees, target range, OOB)",
                 "class_sizes": "classifier, p=1 distinct values: every n in 4..=120 x every two-class split (c, n-c), c=1..n-1, and three layouts with singleton classes, rows contiguous or interleaved, integer labels {-3,7,10} or fractional labels {0.25,0.75,1.5} that share integer parts, 2 trees, keep_samples (1 seed quick, 4 thorough): stratification and all other classifier clauses",
                 "bootstrap": "n=4 rows (2+2 classes / 2 target vectors), 3 layouts per p in {1,2}, n_trees in {1,2}, m in {p, 1}: EVERY bootstrap outcome (16 per classifier tree, 256 per regressor tree) and every feature-subsampling shuffle",
